@@ -45,6 +45,9 @@ pub struct DCfg {
     pub long_stall_ms: u64,
     /// no whole-run sentinel subscriber: the subscriber list can become empty during the run
     pub no_sentinel: bool,
+    /// the only subscriber (a parked channeled one) is being unsubscribed while another thread registers
+    /// a new subscriber; actions dispatched afterwards must reach the new one
+    pub lone: bool,
 }
 
 pub fn gen(rng: &mut Rng, tiny: bool, focus: &str) -> DCfg {
@@ -119,6 +122,7 @@ pub fn gen(rng: &mut Rng, tiny: bool, focus: &str) -> DCfg {
         cross_unsub,
         long_stall_ms,
         no_sentinel: rng.chance(1, 3),
+        lone: rng.chance(1, 12),
     }
 }
 
@@ -151,13 +155,50 @@ pub fn describe(c: &DCfg) -> J {
         ("cross_unsubscribe", c.cross_unsub.map(|(cap, p, n)| J::s(format!("channeled X unsubscribes channeled Y (cap {} {}) from inside its {}-th on_notify", cap, POL_NAMES[p as usize], n))).unwrap_or(J::Null)),
         ("perturb", J::U(c.perturb as u64)),
         ("whole_run_sentinel", J::B(!c.no_sentinel)),
+        ("lone_subscriber_handover", J::B(c.lone)),
     ])
 }
 
 const MARK_GIVEUP: u32 = 900;
 const MARK_STALL_DONE: u32 = 5;
 
+/// Deterministic hand-over: list = [X] (channeled, parked at a gate with a backlog); T2 unsubscribes X
+/// (blocks in the join while holding the list lock), T1 registers S2 meanwhile; gate opens; more actions.
+fn execute_lone(c: &DCfg, seed: u64) -> W {
+    let ctx = Ctx::new(ScriptSrc::Table(vec![Script::plain()]), 3, seed, c.perturb, false);
+    let w = W::new(ctx, vec![StoreCfg { policy: POL_BLOCK, cap: 16, n_red: c.n_red, n_mw: 0, name: "rsvd".into() }]);
+    let (xid, xsn) = w.add_channeled(0, 4, POL_BLOCK, 1, true, true, false);
+    for k in 0..3 {
+        w.dispatch(0, EP_INHERENT, Act { id: act_id(0, 1, k + 1), script: 0 });
+    }
+    w.ctx.gates[1].wait_parked(1);
+    let mut keep = None;
+    std::thread::scope(|sc| {
+        let w = &w;
+        let t2 = std::thread::Builder::new().name("unsub".into()).spawn_scoped(sc, move || w.unsubscribe(0, xid, xsn.as_ref())).unwrap();
+        crate::fam_a::wait_until(|| crate::fam_a::count_kind(w, K::UInv, xid) >= 1);
+        let t1 = std::thread::Builder::new().name("sub".into()).spawn_scoped(sc, move || w.add_direct(0, NOGATE, false, false, false)).unwrap();
+        crate::fam_a::wait_until(|| w.ctx.log.bufs.lock().unwrap().iter().any(|(_, b)| b.lock().unwrap().iter().any(|e| e.k == K::AddInv && e.idx != xid)));
+        for _ in 0..20 {
+            std::thread::yield_now();
+        }
+        w.ctx.gates[1].open();
+        t2.join().unwrap();
+        keep = Some(t1.join().unwrap());
+    });
+    for k in 0..3 {
+        w.dispatch(0, EP_INHERENT, Act { id: act_id(0, 2, k + 1), script: 0 });
+    }
+    w.stop(0, STOP_STOP);
+    w.read(0);
+    drop(keep);
+    w
+}
+
 pub fn execute(c: &DCfg, seed: u64) -> W {
+    if c.lone {
+        return execute_lone(c, seed);
+    }
     let ctx = Ctx::new(ScriptSrc::Table(c.scripts.clone()), 3, seed, c.perturb, false);
     let w = W::new(ctx, vec![StoreCfg { policy: c.policy, cap: c.cap, n_red: c.n_red, n_mw: 0, name: "rsvd".into() }]);
     let total = (c.n_prod * c.per_prod) as u64;
